@@ -209,6 +209,13 @@ func (c Cfg) Val(n uint64) interface{} {
 	case "ptr":
 		v := n
 		return &v // a fresh pointer every time: equality must be by pointee
+	case "np":
+		// a pointer that may be nil: 1 is the typed nil pointer (marshaled as null)
+		if n == 1 {
+			return (*uint64)(nil)
+		}
+		v := n
+		return &v
 	case "iface":
 		// as encoding/json decodes it: an interface holding a slice (uncomparable with ==)
 		return IV{X: []interface{}{strconv.FormatUint(n, 10)}}
@@ -272,6 +279,9 @@ func (c Cfg) ValNat(v interface{}) uint64 {
 		}
 		return n
 	case *uint64:
+		if x == nil {
+			return 1
+		}
 		return *x
 	case LV:
 		n, err := strconv.ParseUint(string(x)[:strings.IndexByte(string(x), '-')], 10, 64)
@@ -309,7 +319,7 @@ func (c Cfg) ValuesLike() interface{} {
 		return []byte{}
 	case "str":
 		return ""
-	case "ptr":
+	case "ptr", "np":
 		return (*uint64)(nil)
 	case "iface":
 		return IV{}
